@@ -348,8 +348,9 @@ def main():
         if verdict is True:
             continue
         hit = None
-        # a line that is a finding's own witness is counted for that finding (several regions may cover it)
-        for f in sorted(open_f, key=lambda f: f.get("witness") != l):
+        # a line that is a finding's own witness is counted for that finding (several regions may cover it);
+        # findings that concern the specification only (applies_to=spec) excuse nothing here: the model is as coded
+        for f in sorted((f for f in open_f if f.get("applies_to") != "spec"), key=lambda f: f.get("witness") != l):
             if R.in_region(f["region"], l, a, b):
                 hit = f
                 break
@@ -362,7 +363,7 @@ def main():
         for l, a, b in zip(plines, pimpl, pmodel):
             if a == b or R.compare(prop, l, a, b) is True:
                 continue
-            if any(R.in_region(f["region"], l, a, b) for f in open_f):
+            if any(R.in_region(f["region"], l, a, b) for f in open_f if f.get("applies_to") != "spec"):
                 continue
             diffs.append((l, a + f" [profile {prof}]", b, "disagreement-" + prof))
         notes.append(f"profile {prof} (no overflow checks, no debug assertions): {len(plines)} lines re-evaluated")
